@@ -249,7 +249,12 @@ struct Exporter {
     if (!e) return nullptr;
     if (isa<CallExpr>(e)) return json::Array{"C", tree(e), ploc(e->getBeginLoc())};
     if (auto *b = dyn_cast<BinaryOperator>(e)) {
-      if (b->isAssignmentOp()) return json::Array{"A", tree(e), ploc(b->getOperatorLoc()), macros(b->getOperatorLoc())};
+      if (b->isAssignmentOp()) {
+        std::string rt;
+        QualType lt = b->getLHS()->getType().getCanonicalType();
+        if (lt->isRecordType()) rt = recName(lt->getAsRecordDecl());
+        return json::Array{"A", tree(e), ploc(b->getOperatorLoc()), macros(b->getOperatorLoc()), rt};
+      }
       return nullptr;
     }
     if (auto *u = dyn_cast<UnaryOperator>(e)) {
